@@ -74,4 +74,6 @@ def make_engine(repo):
     eng = Engine(repo, FILE, classes=CLASSES, contracts=CONTRACTS)
     for c in ALL:
         eng.register_class(c)
+    eng.cvc5_mode = 'first'
+    eng.feas_ms = 300
     return eng
